@@ -43,6 +43,16 @@ def run(ctx):
     ctx.alias = {'R2': 'R6'}
     c14.r2_freshness(ctx)
     ctx.alias = {}
+    # the caller's selection is only read: an export that narrows spine_types / spine_ids in the options object it was given decides
+    # the projection of the NEXT document exported with those options (effect analysis from Generic.export as R7)
+    from . import shared
+    shared.effect_free(ctx, 'R7', [f'{N.GENERIC}.Generic.export'],
+                       'the selection a caller passes must mean the same for every document it is used with')
+    # the default selection ("all spine types") is the HEADERS constant: it holds every header the importer dispatches on (C18.R4 as R8)
+    from . import c18
+    ctx.alias = {'R4': 'R8'}
+    c18.r4_dispatch(ctx)
+    ctx.alias = {}
 
 
 def r1b_body_loop(ctx):
